@@ -499,6 +499,7 @@ pub fn c18(tier: Tier, _seed: u64) -> Prop {
         units.push(seq_unit("lines-small/len7", &SMALL, 7));
     }
     units.push(framing_unit(if thorough { 5 } else { 4 }));
+    units.push(super::realbin::c18_unit());
     Prop {
         id: "C18",
         level: "model_checking",
